@@ -157,9 +157,10 @@ func (rp *replayer) run(fn *ssa.Function, model map[string]any, label string) (*
 	confirmLabel = label
 	out, err := runReplayBinary(bin, fn.Name(), rf, rp.dir)
 	if err == nil && label != "" && out.failedLabel == "" || (err == nil && label != "" && strings.HasPrefix(out.failedLabel, "!")) {
-		// concurrency harnesses (_race): a data race, a concurrent-map fatal error or a deadlock watchdog
+		// concurrency harnesses (_race): a data race, a concurrent-map fatal error, a deadlock watchdog or a
+		// contention probe (several goroutines, one fresh key, more than one success of a test-and-set operation)
 		// reported by the native run confirms the lock-discipline finding it was derived from
-		if strings.HasSuffix(fn.Name(), "_race") && (strings.Contains(out.raw, "WARNING: DATA RACE") || strings.Contains(out.raw, "fatal error: concurrent map") || strings.Contains(out.raw, "ZZ-DEADLOCK")) {
+		if strings.HasSuffix(fn.Name(), "_race") && (strings.Contains(out.raw, "WARNING: DATA RACE") || strings.Contains(out.raw, "fatal error: concurrent map") || strings.Contains(out.raw, "ZZ-DEADLOCK") || strings.Contains(out.raw, "ZZ-ATOMICITY")) {
 			out.failedLabel = label
 		}
 	}
